@@ -1188,7 +1188,7 @@ def removal_paths(ctx, o):
             o.refute(f, cut, 'remove', f"_ChildrenList.remove has a path that takes the task out of the shared list itself (`{src(cut)[:40]}`) instead "
                                        f"of re-assigning the owner's children: nothing detaches the removed subtree on that path, it keeps reporting "
                                        f"the WBS (a following `task.parent = None` re-roots a member instead of removing it)")
-    _delegates(ctx, o, f, children_store("self._ChildrenList__parent"), 'remove', "list removal = children assignment on the owner",
+    _delegates(ctx, o, f, children_store("self.$owner"), 'remove', "list removal = children assignment on the owner",
                "_ChildrenList.remove does not go through the owner's children assignment (no detach)", in_place=list_cut)
     f = prog.func('wbs.WBS.roots.setter')
     _delegates(ctx, o, f, children_store("self._WBS__root"), 'roots', "roots assignment = children assignment on the root task",
